@@ -121,6 +121,17 @@ var Properties = map[string]PropDef{
 			{Name: "process.ZZC14DeclOrder", Quick: map[string]int{"K": 1, "D": 1, "G": 0, "NP": 1, "PD": 0}},
 		},
 	},
+	"C18": {
+		ID: "C18", Exhaustive: true,
+		Pkgs:   []string{"grits/types", "grits/process", "grits/parser", "grits/cmd"},
+		Bounds: "complete over the execution flags (typecheck, notypecheck, execute, noexecute, sync, async as symbolic booleans; verbosity symbolic in -1..5), 0..2 file arguments, and the outcomes of the parse and typecheck stages; benchmark / sample-benchmarks / webserver flags left at their defaults",
+		Assumptions: []string{
+			"C18-only stubs: flag.Bool/Int/Uint return cells holding the symbolic values, flag.Parse/Args are replaced; parser.ParseFile and process.Typecheck answer nondeterministically (ok / error) and are logged; process.InitializeProcesses is logged as EXEC; log.Fatal and os.Exit end the path as EXIT",
+			"natively (replay) the same harness builds os.Args, a fresh flag set and real program files (syntax error / type error / a program printing a label) and observes exit vs return and the printed label",
+		},
+		Outside:   "the flag package's own parsing of spellings, panics inside the real stages (C09, C11), benchmark and web-server modes, the exact text of diagnostics",
+		Harnesses: []HarnessDef{{Name: "cmd.ZZC18Cli"}},
+	},
 	"C06": {
 		ID: "C06", AssertPrefix: "C06.", Bounds: ruleBounds, Assumptions: ruleAssumptions,
 		Outside:   "shift legality inside type definitions is decided under C10; judgements nested deeper than one rule follow inductively from the probes",
